@@ -71,6 +71,16 @@ func (b *backend) start() error {
 	return nil
 }
 
+// interrupt kills the solver process of a back end that is busy with a losing query; the
+// goroutine blocked in ask() sees EOF and restarts the process lazily.
+func (b *backend) interrupt() {
+	if c := b.cmd; c != nil {
+		if p := c.Process; p != nil {
+			p.Kill()
+		}
+	}
+}
+
 func (b *backend) kill() {
 	if b.cmd != nil && b.cmd.Process != nil {
 		b.cmd.Process.Kill()
@@ -232,20 +242,54 @@ func (s *solverSet) check(decls []string, asserts []string, getvals []string) (s
 	}
 	res := "unknown"
 	var model map[string]string
-	for k, bi := range order {
-		b := s.backends[bi]
-		ms := s.capMs
-		if k == 0 && len(order) > 1 {
-			ms = s.quickMs
-		}
-		r, m := s.ask(b, body, getvals, ms)
+	// primary first, with a short cap
+	{
+		b := s.backends[order[0]]
+		r, m := s.ask(b, body, getvals, s.quickMs)
 		if r == "sat" || r == "unsat" {
 			res, model = r, m
 			s.PerBack[b.name]++
-			break
-		}
-		if r == "error" {
+		} else if r == "error" {
 			s.Errors++
+		}
+	}
+	if res == "unknown" && s.capMs > s.quickMs {
+		// race all back ends (incl. the primary with the full cap); first definitive answer wins
+		type ans struct {
+			r string
+			m map[string]string
+			b *backend
+		}
+		ch := make(chan ans, len(order))
+		for _, bi := range order {
+			b := s.backends[bi]
+			go func() {
+				r, m := s.ask(b, body, getvals, s.capMs)
+				ch <- ans{r, m, b}
+			}()
+		}
+		got := 0
+		for got < len(order) {
+			a := <-ch
+			got++
+			if a.r == "sat" || a.r == "unsat" {
+				res, model = a.r, a.m
+				s.PerBack[a.b.name]++
+				// stop the others
+				for _, bi := range order {
+					if s.backends[bi] != a.b {
+						s.backends[bi].interrupt()
+					}
+				}
+				for got < len(order) {
+					<-ch
+					got++
+				}
+				break
+			}
+			if a.r == "error" {
+				s.Errors++
+			}
 		}
 	}
 	s.Queries++
@@ -305,7 +349,7 @@ func parseModel(s string) map[string]string {
 			if i >= len(toks) {
 				break
 			}
-			name := toks[i]
+			name := strings.Trim(toks[i], "|")
 			i++
 			val := parseVal()
 			if i < len(toks) && toks[i] == ")" {
